@@ -1,7 +1,7 @@
 #!/usr/bin/env python3
 # Regenerates /verif/MANIFEST.json from the table below (single source of truth for the interface file).
 import json, os
-TECH = "bounded symbolic execution of go/ssa (rebuilt from /repo each run) with z3: path forking by re-execution, exact byte-domain decision procedure for one-variable constraints, every assertion discharged as PC && !A unsat, native replay of every solver model"
+TECH = "bounded symbolic execution of go/ssa (rebuilt from /repo each run) with z3: path forking by re-execution, exact byte-domain decision procedure for one-variable constraints (incl. switch reconstruction over side-effect-free compare chains), every assertion discharged as PC && !A unsat, native replay of every solver model"
 checks = {
  "C01": dict(design="4/C01",
    text="Bounded symbolic execution of the real parser.Parse pipeline (SSA rebuilt from /repo on every run): every byte string within the stated shapes and lengths is covered by a feasible path; no path may panic, exhaust the linear instruction budget, return an error, write to stdout, modify the buffer or static memory. Every path's solver model is replayed on the natively compiled code.",
@@ -48,6 +48,9 @@ checks = {
  "C17": dict(design="4/C17",
    text="For every corpus snippet accepted by the parser (both grammars), as written and with symbolic trivia in its inter-token gaps: parse, format, print, parse again on one path; asserted: no panic, the formatted text parses without errors, the second tree equals the first in kinds, nesting and values (SMT for symbolic bytes), formatting and printing the second tree reproduces the same bytes (idempotence), and the formatted text equals the formatted text of the unmodified snippet (canonicity: independent of the symbolic trivia).",
    note="Program shapes are the corpus; one gap at a time. Ten signatures are known findings (inline HTML, heredoc flavour/placement, ${ } forms, braced empty namespaces); seven small formatter defects were repaired with fix: commits."),
+ "C14": dict(design="4/C14",
+   text="Differential against a reference resolver written from the PHP manual's name-resolution and importing rules (harness/h_c14.go), both run on the same parsed tree inside one symbolic path: programs are generated from namespace form x import declarations (use / use function / use const, group, mixed group, leading backslash, keyword case) x 43 reference positions x 7 name forms + declaration forms; the alias of every import and the first segment of the referenced name are symbolic identifiers, so alias hit / hit up to case / miss is decided by the solver. Asserted by SMT equality on the symbolic bytes: every declaration and every compile-time-resolved reference has an entry with the reference's fully qualified name, special names stay unqualified, and the map contains nothing else.",
+   note="Bounds: one referenced or declared name per program, <= 2 imports, <= 3 name segments, symbolic identifiers [Zz][A-Za-z] (2 bytes); quick tier rotates (import, namespace form) over the positions, thorough tier takes the full product. The reference fixes PHP's compile-time rules; run-time fall-back of functions/constants to the global namespace is not resolution. Programs that PHP rejects (duplicate alias) are discarded."),
 }
 na = {}
 ALL = ["C%02d" % i for i in range(1, 19)]
